@@ -291,7 +291,7 @@ FailStep == failed' = TRUE /\ UNCHANGED <<cfg, objs, roots, ivl, imm, pinned, bo
 Step(e) ==
     CASE e.ev = "Boot"    -> DoBoot(e)
       [] e.ev = "Reset"   -> DoReset(e)
-      [] failed           -> IF e.ev = "Alloc" /\ e.sem \in NeverCollectedSem /\ e.id \notin DOMAIN objs
+      [] failed /\ e.ev # "Crash" -> IF e.ev = "Alloc" /\ e.sem \in NeverCollectedSem /\ e.id \notin DOMAIN objs
                              THEN DoAllocImmOnly(e) ELSE Skip
       [] e.ev = "GCRequest" -> SetAux("exh", e.exhaustive)
       [] e.ev = "GridStart" -> SetAux("grid", TRUE)
@@ -309,6 +309,7 @@ Step(e) ==
       [] e.ev = "Unpin"   -> DoUnpin(e)
       [] e.ev = "GCEnd"   -> IF GCEndOK(e) THEN DoGCEnd(e) ELSE FailStep
       [] e.ev = "PostChurn" -> IF PostChurnOK(e) THEN Skip ELSE FailStep
+      \* a crash of the code under test is reported even while the trace waits for the next Reset
       [] e.ev = "Crash"   -> Fail("crash") /\ FailStep
       [] OTHER            -> Skip
 
